@@ -9,7 +9,8 @@ Suites (requests are documented in coq/Model/SuiteStyler.v and harness/suite_sty
                          way of choosing the colour scheme
 
 The oracles are written from the property text: an SGR sequence is ESC [ <digits and ;>* m (parameters are
-optional, "ESC[m" is a reset); "visible characters" = runes left after removing them.
+optional, "ESC[m" is a reset); "visible characters" = runes left after removing them. (klog's own pattern missed
+ESC[m until 332f4bb: fixed finding K18, its input stays in corpus/C18/.)
 """
 import sys, os, re, itertools
 sys.path.insert(0, os.path.dirname(os.path.dirname(os.path.abspath(__file__))))
@@ -17,8 +18,7 @@ from common import hx, unhx
 from check import Suite
 
 ESC = b"\x1b"
-SGR = re.compile(rb"\x1b\[[0-9;]*m")      # the property's notion
-GO_PATTERN = re.compile(rb"\x1b\[[0-9;]+m")  # what StripAllAnsiSequences removes
+SGR = re.compile(rb"\x1b\[[0-9;]*m")      # the property's notion of an SGR sequence: parameters optional
 SCHEMES = ["dark", "light", "basic", "no_colour"]
 
 
@@ -160,12 +160,8 @@ def oracle_strip(req, out):
         return "StripAllAnsiSequences failed: %s" % out
     f = f[1:]
     got = unhx(f[0])
-    if b"\x1b[m" not in s:
-        # no parameterless sequence in the input: the implementation's pattern and SGR coincide
-        if got != sgr_strip(s):
-            return "StripAllAnsiSequences(%r) = %r, removing the SGR sequences gives %r" % (s, got, sgr_strip(s))
-    elif got != GO_PATTERN.sub(b"", s):
-        return "StripAllAnsiSequences(%r) = %r" % (s, got)
+    if got != sgr_strip(s):
+        return "StripAllAnsiSequences(%r) = %r, removing the SGR sequences gives %r" % (s, got, sgr_strip(s))
     if int(f[1]) != go_rune_count(got):
         return "rune count of %r reported as %s" % (got, f[1])
     return None
@@ -324,25 +320,6 @@ def oracle_table(req, out, pattern=SGR):
 
 def nontrivial_table(req, out):
     return out.startswith("ok ") and len(out) > 6
-
-
-def k18_parameterless_sgr(req, out):
-    """known finding K18: StripAllAnsiSequences (`\\x1b\\[[\\d;]+m`) does not recognise the parameterless SGR sequence
-       ESC[m, so Table.Cell counts it as 3 visible characters. Matches exactly the cases where a cell text (table suite)
-       or a quoted tag value shown by `klog tags --values` (cli suite) contains ESC[m AND the row widths are equal when
-       measured with the implementation's own pattern, i.e. nothing else is wrong."""
-    if req.startswith("table-render "):
-        cells = table_cells(req)
-        return (cells is not None and any(b"\x1b[m" in t for _, _, t in cells)
-                and oracle_table(req, out, GO_PATTERN) is None and oracle_table(req, out, SGR) is not None)
-    if req.startswith("style-cli "):
-        f = req.split(" ")
-        if len(f) < 4 or f[3] != "tags" or "--values" not in f:
-            return False
-        if not re.search(rb"#[^\s=]+=(\"[^\"\n]*\x1b\[m[^\"\n]*\"|'[^'\n]*\x1b\[m[^'\n]*')", unhx(f[1])):
-            return False
-        return oracle_cli(req, out, GO_PATTERN) is None and oracle_cli(req, out, SGR) is not None
-    return False
 
 
 # ------------------------------------------------------------------ print (model of the whole `klog print` output)
